@@ -3,27 +3,7 @@
 //!   h2v replay <file>
 //!   h2v selftest
 
-mod checks;
-mod eng_codec;
-mod eng_flood;
-mod eng_threads;
-mod eng_soup;
-mod heapmeter;
-mod eng_hpack;
-mod eng_pair;
-mod eng_raw;
-mod eng_raw2;
-mod oracles;
-mod oracles2;
-mod mockio;
-mod refmodel;
-mod runner;
-mod sim;
-mod sim_pair;
-mod sim_raw;
-mod tapx;
-mod tape;
-mod util;
+use h2v::{checks, heapmeter, runner};
 
 #[global_allocator]
 static ALLOC: heapmeter::Meter = heapmeter::Meter;
@@ -53,6 +33,7 @@ fn main() {
         }
         Some("replay") => checks::replay(args.get(2).expect("replay file")),
         Some("selftest") => checks::selftest(),
+        Some("fuzz-seeds") => checks::fuzz_seeds(),
         _ => {
             eprintln!("usage: h2v check <Cxx> [--tier quick|thorough] | replay <file> | selftest");
             2
